@@ -357,6 +357,9 @@ class C16(CheckBase):
             t = case['tpick'] % s.tracks
             sec = (case['tpick'] // 7) % s.spt
             argv = ['dump-sector', str(d), str(t), str(sec)]
+        if cmd == 'type' and case['tpick'] % 4 == 1:
+            # an explicit :k. prefix in the name wins over the --drive option, whatever drive that names
+            g = ['--drive', str(d + 1 + (case['tpick'] // 4) % 3)] + g
         if case['tpick'] % 3 == 0:
             # --ui after (or before) --drive: a presentation option must not disturb the addressing
             ui = ['--ui', ['acorn', 'watford', 'opus'][(case['tpick'] // 3) % 3]]
